@@ -85,6 +85,19 @@ def rule_count(ctx, rep):
         # both walks use the same list head
         enq = [e.inst for e in pat.accesses(f, None, ("xchg",)) if "call_rcu_data.cbs_tail" in _fields(e.ap)]
         rep.must_pass("C04.count", fl + ".init≺markers", f, [f.entry()], enq, lambda i: i in bcs, include_start=True, what="barrier_count is set before any marker can complete")
+        # each marker knows its completion before it is queued, and is queued with the completing callback
+        links = [s_ for s_ in pat.stores(f, "call_rcu_completion_work.completion")]
+        if not links:
+            rep.bad("C04.count", fl + ".marker-linked", "the marker work item is queued without a pointer to the completion it reports to (the callback dereferences an unset pointer / never counts down)", [f.name])
+        else:
+            rep.must_pass("C04.count", fl + ".marker-linked", f, [f.entry()], enq, lambda i: i in links, include_start=True, what="work->completion is set before the marker is queued")
+            fs = [s_ for s_ in pat.stores(f, "rcu_head.func")]
+            okf = bool(fs) and all(ir.expr(f, s_.args[0])[0] == "fn" for s_ in fs)
+            names = sorted(set(ir.expr(f, s_.args[0])[1] for s_ in fs if ir.expr(f, s_.args[0])[0] == "fn"))
+            mods = f.mod
+            cbs = [mods.fn(n_) for n_ in names]
+            dec_ok = bool(cbs) and all(c_ is not None and any(e_.ap is not None and pat.last_field(e_.ap) == "call_rcu_completion.barrier_count" for e_ in pat.accesses(c_, None, ("rmw", "xchg"))) for c_ in cbs)
+            rep.check(okf and dec_ok, "C04.count", fl + ".marker-fn", "the marker's callback (%s) counts barrier_count down" % names, "markers are queued with %s, which does not count barrier_count down: rcu_barrier never returns" % names, [s_.where() for s_ in fs[:1]])
 
 
 def rule_sb(ctx, rep):
